@@ -2004,6 +2004,7 @@ def gen_mission_case(R, maxops=14):
     if R.random() < 0.3:
         case["via_file"] = True          # missions handed over through start_mission_with_waypoint_file
         case["file_fmt"] = R.choice(["r", "r", "e", "sp", "plus"])     # the same numbers written in exponent form, padded, signed
+        case["file_rel"] = R.random() < 0.4     # named relative to the working directory; a same-named decoy lies beside the protocol's source
     if R.random() < 0.3:
         case["decoy"] = True             # the protocol owns a second, idle mission plugin created after this one
     if R.random() < 0.3:
